@@ -22,21 +22,9 @@ Gen/Layouts.vos Gen/Layouts.vok Gen/Layouts.required_vos: Gen/Layouts.v Base/Lay
 Model/Vhd.vo Model/Vhd.glob Model/Vhd.v.beautified Model/Vhd.required_vo: Model/Vhd.v Base/Arith.vo Base/Plan.vo Base/Table.vo Gen/Consts.vo
 Model/Vhd.vio: Model/Vhd.v Base/Arith.vio Base/Plan.vio Base/Table.vio Gen/Consts.vio
 Model/Vhd.vos Model/Vhd.vok Model/Vhd.required_vos: Model/Vhd.v Base/Arith.vos Base/Plan.vos Base/Table.vos Gen/Consts.vos
-Model/VmxCrypto.vo Model/VmxCrypto.glob Model/VmxCrypto.v.beautified Model/VmxCrypto.required_vo: Model/VmxCrypto.v Gen/Consts.vo
-Model/VmxCrypto.vio: Model/VmxCrypto.v Gen/Consts.vio
-Model/VmxCrypto.vos Model/VmxCrypto.vok Model/VmxCrypto.required_vos: Model/VmxCrypto.v Gen/Consts.vos
 Proofs/Vhd.vo Proofs/Vhd.glob Proofs/Vhd.v.beautified Proofs/Vhd.required_vo: Proofs/Vhd.v Base/Arith.vo Base/Plan.vo Base/Table.vo Model/Vhd.vo
 Proofs/Vhd.vio: Proofs/Vhd.v Base/Arith.vio Base/Plan.vio Base/Table.vio Model/Vhd.vio
 Proofs/Vhd.vos Proofs/Vhd.vok Proofs/Vhd.required_vos: Proofs/Vhd.v Base/Arith.vos Base/Plan.vos Base/Table.vos Model/Vhd.vos
-Proofs/VmxCodec.vo Proofs/VmxCodec.glob Proofs/VmxCodec.v.beautified Proofs/VmxCodec.required_vo: Proofs/VmxCodec.v Base/Plan.vo Model/VmxCrypto.vo Proofs/VmxCrypto.vo
-Proofs/VmxCodec.vio: Proofs/VmxCodec.v Base/Plan.vio Model/VmxCrypto.vio Proofs/VmxCrypto.vio
-Proofs/VmxCodec.vos Proofs/VmxCodec.vok Proofs/VmxCodec.required_vos: Proofs/VmxCodec.v Base/Plan.vos Model/VmxCrypto.vos Proofs/VmxCrypto.vos
-Proofs/VmxCrypto.vo Proofs/VmxCrypto.glob Proofs/VmxCrypto.v.beautified Proofs/VmxCrypto.required_vo: Proofs/VmxCrypto.v Model/VmxCrypto.vo
-Proofs/VmxCrypto.vio: Proofs/VmxCrypto.v Model/VmxCrypto.vio
-Proofs/VmxCrypto.vos Proofs/VmxCrypto.vok Proofs/VmxCrypto.required_vos: Proofs/VmxCrypto.v Model/VmxCrypto.vos
 Props/C04.vo Props/C04.glob Props/C04.v.beautified Props/C04.required_vo: Props/C04.v Base/Plan.vo Base/Table.vo Model/Vhd.vo Proofs/Vhd.vo
 Props/C04.vio: Props/C04.v Base/Plan.vio Base/Table.vio Model/Vhd.vio Proofs/Vhd.vio
 Props/C04.vos Props/C04.vok Props/C04.required_vos: Props/C04.v Base/Plan.vos Base/Table.vos Model/Vhd.vos Proofs/Vhd.vos
-Props/C15.vo Props/C15.glob Props/C15.v.beautified Props/C15.required_vo: Props/C15.v Model/VmxCrypto.vo Proofs/VmxCrypto.vo Proofs/VmxCodec.vo
-Props/C15.vio: Props/C15.v Model/VmxCrypto.vio Proofs/VmxCrypto.vio Proofs/VmxCodec.vio
-Props/C15.vos Props/C15.vok Props/C15.required_vos: Props/C15.v Model/VmxCrypto.vos Proofs/VmxCrypto.vos Proofs/VmxCodec.vos
